@@ -47,7 +47,7 @@ let fmt_out_backward cap (d', pos) =
   let rec take n = function [] -> [] | x :: t -> if n <= 0 then [] else x :: take (n - 1) t in
   zl (drop p d') ^ (if List.for_all is_guard (take p d') then "" else " WROTE-PAST-RETURN")
 
-let run_case op t =
+let run_case0 op t =
   let dk = dest_kind op in
   let op = strip_flavour op in
   match op with
@@ -279,5 +279,49 @@ let run_case op t =
            (res_s fmt2 (partition_copy_out (pred_of id) l (dest_buf dk cap) O (dest_buf dk cap) O),
             "ok " ^ fmt (partition_copy_spec (pred_of id) l))
        | _ -> raise Not_found)
+
+(* "_t<k>": result type of the predicate / comparator (int with truthy value 2, -1, 4096; class type convertible to bool):
+   the code may use the result only through its conversion to bool, so the model is that of the bool predicate *)
+let strip_truth op =
+  let n = String.length op in
+  if n > 3 && op.[n - 3] = '_' && op.[n - 2] = 't' && op.[n - 1] >= '1' && op.[n - 1] <= '4' then String.sub op 0 (n - 3) else op
+
+(* "_mv" / "_mv_full": move-tracking element type (a move marks its source with -999, no self test).
+   _mv_full of unique / remove_if / shift_left / shift_right / move_ov / move_backward_ov: the model with explicit moves
+   (coq/C06a/ModelMove.v): whole array with the marks + number of move assignments.  Everything else: the values are
+   those of the copy model (no mark may survive in the part of the array that is shown). *)
+let mvz = z_of_int (-999)
+let rec take n = function [] -> [] | x :: t -> if n <= 0 then [] else x :: take (n - 1) t
+let run_mv base full t =
+  let fmt_mv ((l', r), tr) = nat_s r ^ " " ^ zl l' ^ " A " ^ string_of_int (List.length tr) in
+  match base, full with
+  | "unique", true -> let id = next_z t in let l = next_zlist t in (res_s fmt_mv (unique_mv mvz (eqv_of id) l), "na")
+  | "remove_if", true -> let id = next_z t in let l = next_zlist t in (res_s fmt_mv (remove_if_mv mvz (pred_of id) l), "na")
+  | "shift_left", true -> let n = next_z t in let l = next_zlist t in (res_s fmt_mv (shift_left_mv mvz l n), "na")
+  | "shift_right", true -> let n = next_z t in let l = next_zlist t in (res_s fmt_mv (shift_right_mv mvz l n), "na")
+  | ("move_ov" | "move_backward_ov"), _ ->
+      let f = next_int t in let la = next_int t in let d = next_int t in let l = next_zlist t in
+      let len = List.length l in
+      let fwd = base = "move_ov" in
+      let fuel = nat_of_int (len + 1) in
+      if full then
+        ((if fwd then res_s fmt_mv (move_fwd_mv mvz fuel l (nat_of_int f) (nat_of_int la) (nat_of_int d) [])
+          else res_s fmt_mv (move_bwd_mv mvz fuel l (nat_of_int f) (nat_of_int la) (nat_of_int d) [])), "na")
+      else
+        let n = la - f in
+        let start r = if fwd then d else r in
+        let fmt (l', r) = let r = int_of_nat r in string_of_int r ^ " " ^ zl (take n (drop (start r) l')) in
+        let m = if fwd then move_fwd fuel l (nat_of_int f) (nat_of_int la) (nat_of_int d)
+                else move_bwd fuel l (nat_of_int f) (nat_of_int la) (nat_of_int d) in
+        let sp = if fwd then (copy_within_spec l (nat_of_int f) (nat_of_int la) (nat_of_int d), nat_of_int (d + n))
+                 else (copy_backward_within_spec l (nat_of_int f) (nat_of_int la) (nat_of_int d), nat_of_int (d - n)) in
+        (res_s fmt m, "ok " ^ fmt sp)
+  | _ -> run_case0 (base ^ (if full then "_full" else "")) t
+
+let run_case op t =
+  let op = strip_truth op in
+  let (opm, mfull) = strip_suffix "_full" op in
+  let (base, ismv) = strip_suffix "_mv" opm in
+  if ismv then run_mv base mfull t else run_case0 op t
 
 let () = main run_case
